@@ -20,6 +20,8 @@ type solverDef struct {
 
 var solvers = []solverDef{
 	{"z3-5.1.0", func(s int) []string { return []string{"z3-new", "-in", fmt.Sprintf("-T:%d", s)} }, false},
+	// NOT used: on one vacuity query z3's int-blasting BV solver answered `unsat` where every other
+	// solver could not confirm it and the formula is believed satisfiable; kept only for experiments.
 	{"z3-5.1.0-intblast", func(s int) []string {
 		return []string{"z3-new", "-in", fmt.Sprintf("-T:%d", s), "smt.bv.solver=2"}
 	}, false},
@@ -395,7 +397,7 @@ func raceQuery(q *query, tier string, fast bool) solveResult {
 		limit = 180
 	}
 	if fast {
-		limit = 2
+		limit = 3
 	}
 	ctx, cancel := context.WithCancel(context.Background())
 	defer cancel()
@@ -409,10 +411,10 @@ func raceQuery(q *query, tier string, fast bool) solveResult {
 		ms = append(ms, member{solvers[0], true, 0})
 		ms = append(ms, member{solvers[3], false, 1500 * time.Millisecond}, member{solvers[0], false, 1500 * time.Millisecond})
 		if !fast {
-			ms = append(ms, member{solvers[3], true, 5 * time.Second}, member{solvers[1], true, 5 * time.Second}, member{solvers[2], false, 10 * time.Second})
+			ms = append(ms, member{solvers[3], true, 5 * time.Second}, member{solvers[2], false, 10 * time.Second})
 		}
 	} else {
-		ms = append(ms, member{solvers[0], false, 0}, member{solvers[3], false, 2 * time.Second}, member{solvers[1], false, 2 * time.Second}, member{solvers[2], false, 4 * time.Second})
+		ms = append(ms, member{solvers[0], false, 0}, member{solvers[3], false, 2 * time.Second}, member{solvers[2], false, 4 * time.Second})
 	}
 	var scripts sync.Map
 	render := func(inst, cvc bool) string {
@@ -504,7 +506,7 @@ func solveAll(obls []*Obligation, cands []*Candidate, tier string, expectSat boo
 		queries = append(queries, qs...)
 		byObl[o] = qs
 	}
-	runQueries(queries, tier, false)
+	runQueries(queries, tier, expectSat)
 	for o, qs := range byObl {
 		o.Verdict = "unsat"
 		for qi, q := range qs {
@@ -567,7 +569,7 @@ func decideScripts(scriptZ string, mkC func() string, inst []*Term, tier string)
 		// the ground-instance query: only `unsat` is conclusive
 		iz := Script(inst, ScriptOpts{})
 		ic := Script(inst, ScriptOpts{Cvc5: true})
-		for _, sd := range []solverDef{solvers[1], solvers[3]} {
+		for _, sd := range []solverDef{solvers[0], solvers[3]} {
 			sd := sd
 			sc := iz
 			if sd.cvc5 {
